@@ -121,7 +121,7 @@ class Creators:
         else:
           version = gfa_line.VN
         # validate before storing anything in the Gfa instance
-        if self._vlevel > 0 and version not in gfapy.VERSIONS:
+        if self._vlevel > 0 and gfa_line.VN not in ["1.0", "2.0"]:
           raise gfapy.VersionError(
             "GFA specification version {} not supported".format(version))
       self.header._merge(gfa_line)
